@@ -1316,7 +1316,10 @@ fn declare_classical_helper(
 ) -> asg::Stmt {
     if let Some(initializer) = &initializer {
         if initializer.get_type().is_const() {
-            context.insert_const_value(symbol_id.clone().unwrap(), initializer.clone());
+            // A redeclaration (already reported) has no symbol to attach the value to.
+            if let Ok(symbol_id) = &symbol_id {
+                context.insert_const_value(symbol_id.clone(), initializer.clone());
+            }
         }
     }
     asg::DeclareClassical::new(symbol_id, initializer).to_stmt()
